@@ -166,8 +166,7 @@ func runC01(c *Ctx) {
 		streamCls := "random"
 		seed := r.U64()
 		mkReader := func() *mon.RecReader {
-			rr := mon.NewRNG(seed)
-			return &mon.RecReader{Src: rr.Fill, Budget: 40 * 64}
+			return &mon.RecReader{Src: mon.StreamSrc(seed), Budget: 40 * 64}
 		}
 		switch i % 23 {
 		case 0:
@@ -179,14 +178,14 @@ func runC01(c *Ctx) {
 		case 2:
 			streamCls = "random-short-reads"
 			mkReader = func() *mon.RecReader {
-				rr := mon.NewRNG(seed)
-				return &mon.RecReader{Src: rr.Fill, Short: true, Budget: 40 * 64}
+				return &mon.RecReader{Src: mon.StreamSrc(seed), Short: true, Budget: 40 * 64}
 			}
 		}
 		cls := fmt.Sprintf("sign/%s/mlen=%d/id=%s/%s", key.cls, ml, idClass(id), streamCls)
 		w := map[string]interface{}{"d": key.d.Text(16), "msg": mon.Hex(msg), "id": mon.Hex(id), "id_class": idClass(id), "stream": streamCls, "stream_seed": seed}
 		priv := key.priv()
 		rd1, rd2 := mkReader(), mkReader()
+		rd2.Short = true // the same byte stream in short reads: chunking must not matter
 		var R, S, R2, S2 *big.Int
 		var err, err2 error
 		if pi := mon.Guard(func() {
